@@ -536,3 +536,59 @@ package aml
 //@   at exit loop 3: ghost walkDone = siblingIndex == InvalidIndex
 //@   at exit loop 3: ghost walkExtra = extra
 //@   ensures out: walkDone && res != parseResultFailed ==> (walkExtra ==> res == parseResultRequireExtraPass) && (!walkExtra ==> res == parseResultOk)
+
+// ---- the argument grammar of an opcode (C11) ----------------------------------------------------
+// An argument list packs up to 7 argument types, 8 bits apiece, lowest first; a type whose low
+// nibble is 0 ends the list.
+//@ spec argAt(fl pOpArgTypeList, k uint8) pArgType = pArgType((fl >> (uint64(k) * 8)) & 0xf)
+//@ spec argc(fl pOpArgTypeList) uint8 = ite(argAt(fl, 0) == 0, 0, ite(argAt(fl, 1) == 0, 1, ite(argAt(fl, 2) == 0, 2, ite(argAt(fl, 3) == 0, 3, ite(argAt(fl, 4) == 0, 4, ite(argAt(fl, 5) == 0, 5, ite(argAt(fl, 6) == 0, 6, ite(argAt(fl, 7) == 0, 7, 8))))))))
+//@ func (fl pOpArgTypeList) argCount() (count uint8)
+//@   property C11
+//@   ensures count == argc(fl)
+//@   loop 1 unroll 9
+//@ func (fl pOpArgTypeList) arg(num uint8) (t pArgType)
+//@   property C11
+//@   requires num < 8
+//@   ensures t == argAt(fl, num)
+
+// connectNamedObjArgs / connectNonNamedObjArgs (partial): every child is visited (children
+// first, last to first) - the walk ends early only by failing; an object that is missing
+// arguments gets the ones from its first TermArg/DataRefObj position to the end of its grammar,
+// taken from its own siblings (named objects) or also from its parent's (other objects).
+//@ pred isTermish(t pArgType) = t == pArgTypeTermArg || t == pArgTypeDataRefObj
+//@ func (p *Parser) connectNamedObjArgs(objIndex uint32) (res parseResult)
+//@   property C11
+//@   partial
+//@   concrete (*Parser).connectNamedObjArgs
+//@   requires p != nil
+//@   modifies *, walkChild, walkDone
+//@   at after call connectNamedObjArgs 1: ghost walkChild = result()
+//@   loop 3 (termArgIndex < argCount) invariant termArgIndex <= argCount && forall(k, uint8, k < termArgIndex ==> !isTermish(argAt(argFlags, k)))
+//@   at call attachSiblingsAsArgs 1: assert missing: argCount == argc(pOpcodeTable[argObj.infoIndex].argFlags) && termArgIndex < argCount && isTermish(argAt(argFlags, termArgIndex)) && forall(k, uint8, k < termArgIndex ==> !isTermish(argAt(argFlags, k))) && arg(numArgs) == argCount - termArgIndex
+//@   at call attachSiblingsAsArgs 1: assert siblings: !arg(useParentSiblings) && arg(parentObj) == obj && arg(targetObj) == argObj
+//@   at exit loop 1: ghost walkDone = argIndex == InvalidIndex
+//@   ensures visitsAll: res != parseResultFailed ==> walkDone
+//@   ensures result: res == parseResultOk || res == parseResultFailed
+//@ func (p *Parser) connectNonNamedObjArgs(objIndex uint32) (res parseResult)
+//@   property C11
+//@   partial
+//@   concrete (*Parser).connectNonNamedObjArgs
+//@   requires p != nil
+//@   modifies *, walkChild, walkDone
+//@   at after call connectNonNamedObjArgs 1: ghost walkChild = result()
+//@   loop 2 (termArgIndex < argCount) invariant termArgIndex <= argCount && forall(k, uint8, k < termArgIndex ==> !isTermish(argAt(argFlags, k)))
+//@   at call attachSiblingsAsArgs 1: assert missing: argCount == argc(pOpcodeTable[argObj.infoIndex].argFlags) && termArgIndex < argCount && isTermish(argAt(argFlags, termArgIndex)) && forall(k, uint8, k < termArgIndex ==> !isTermish(argAt(argFlags, k))) && arg(numArgs) == argCount - termArgIndex
+//@   at call attachSiblingsAsArgs 1: assert siblings: arg(useParentSiblings) && arg(parentObj) == obj && arg(targetObj) == argObj
+//@   at exit loop 1: ghost walkDone = argIndex == InvalidIndex
+//@   ensures visitsAll: res != parseResultFailed ==> walkDone
+//@   ensures result: res == parseResultOk || res == parseResultFailed
+
+// NumArgs (C13): the child count walk never dereferences a dead or missing object; nil and
+// childless objects have no arguments
+//@ func (tree *ObjectTree) NumArgs(obj *Object) (n uint32)
+//@   property C13
+//@   requires wfTree(tree) && (obj != nil ==> member(tree, obj))
+//@   ensures none: obj == nil ==> n == 0
+//@   ensures childless: obj != nil && obj.firstArgIndex == InvalidIndex ==> n == 0
+//@   loop 1 (siblingIndex != InvalidIndex) invariant siblingIndex == InvalidIndex || live(tree, siblingIndex)
+//@   loop 1 invariant empty: obj.firstArgIndex == InvalidIndex ==> argCount == 0 && siblingIndex == InvalidIndex
